@@ -35,7 +35,7 @@ struct Remote : Scenario {
   std::vector<int> connplan; size_t nconn = 0; std::vector<std::string> connected_to, attempted; bool greet4 = false;
   int nrcpt = 1; std::vector<int> script; /* per phase: 2,4,5 or 0 = close */ size_t phase = 0;
   std::shared_ptr<Pipe> to_client, from_client; std::string inbuf, wire_data; bool in_data = false, srv_closed = false, data_done = false; int phase_reached = -1;
-  std::string msg; std::string casename; int ticks = 0;
+  std::string msg; std::string casename; int ticks = 0; int tcpto_case = -1;
   Remote(const Config &c) : cfg(c) { fam = c.get("family", "dns"); build_dns(); }
 
   void build_dns() {
@@ -73,6 +73,12 @@ struct Remote : Scenario {
     if (fam == "dns") { dc = &dcs[w.ex->choose_n((int) dcs.size(), BK_FREE)]; casename = "dns: " + dc->name; }
     else if (fam == "connect") { int c = (int) choose_big(w, 125 * 2); greet4 = c >= 125; c %= 125; connplan = {c % 5, (c / 5) % 5, c / 25}; static const char *nm[] = {"refused", "connected", "timed out", "connected after EINPROGRESS", "refused after EINPROGRESS"}; casename = std::string("connect: ") + nm[connplan[0]] + ", " + nm[connplan[1]] + ", " + nm[connplan[2]] + (greet4 ? ", greeting 421" : ""); }
     else if (fam == "smtp") { nrcpt = 1 + w.ex->choose_n(cfg.geti("maxrcpt", 2), BK_FREE); casename = "smtp: " + std::to_string(nrcpt) + " recipient(s), server answers"; }
+    else if (fam == "tcpto") {
+      // lock/tcpto remembers addresses that timed out: one marked twice within the last hour or so is not tried; if that leaves nothing to try the verdict is a deferral
+      tcpto_case = w.ex->choose_n(4, BK_FREE); static const char *nm[] = {"all candidates timed out twice, 100 s ago", "all candidates timed out twice, 10000 s ago", "all candidates timed out once, 100 s ago", "all candidates timed out twice, 3000 s ago"};
+      casename = std::string("tcpto: ") + nm[tcpto_case]; std::string t; long when = k.clock - (tcpto_case == 1 ? 10000 : tcpto_case == 3 ? 3000 : 100);
+      for (int last : {1, 2, 3}) { std::string r = ip4(10, 0, 0, last); r.push_back((char) (tcpto_case == 2 ? 1 : 2)); r += std::string(3, '\0'); for (int b = 0; b < 8; b++) r.push_back((char) ((when >> (8 * b)) & 255)); t += r; }
+      t.resize(1024, '\0'); k.file("/var/qmail/queue/lock/tcpto")->data = t; }
     else if (fam == "msg") { auto ms = messages(); size_t i = choose_big(w, ms.size()); msg = ms[i]; casename = "msg: [" + esc(msg, 60) + "]"; }
     else throw HarnessError{"unknown family " + fam};
     script.assign(5 + nrcpt, 2); if (greet4) script[0] = 4;
@@ -176,6 +182,7 @@ struct Remote : Scenario {
       }
       for (size_t i = 0; i < attempted.size() && i < dc->order.size(); i++) if (("|" + dc->order[i] + "|").find("|" + attempted[i] + "|") == std::string::npos) { w.soft_violation(key, casename + ": connection attempt " + std::to_string(i + 1) + " went to " + attempted[i] + ", expected " + dc->order[i]); return; }
       if (attempted.size() > dc->order.size()) { w.soft_violation(key, casename + ": connection attempt to " + attempted.back() + ", which is not a candidate"); return; }
+      if (fam == "tcpto" && (tcpto_case == 0 || tcpto_case == 3)) { conn = false; if (!attempted.empty()) { w.soft_violation(key, casename + ": " + std::to_string(attempted.size()) + " connection attempts to addresses marked as timing out"); return; } }
       if (!conn) want = "Z";
       else {
         int last = 4 + nrcpt; bool anyr = false;
